@@ -492,9 +492,14 @@ def _group(tlist, cls, match,
 
         if match(token):
             nidx, next_ = tlist.token_next(tidx)
-            if prev_ and valid_prev(prev_) and valid_next(next_) \
-                    and prev_ not in delimiters and next_ not in delimiters:
+            if prev_ and valid_prev(prev_) and valid_next(next_):
                 from_idx, to_idx = post(tlist, pidx, tidx, nidx)
+                # a neighbour that is only looked at may be a delimiter,
+                # one that is taken into the new group may not
+                if tlist.tokens[from_idx] in delimiters \
+                        or tlist.tokens[to_idx] in delimiters:
+                    pidx, prev_ = tidx, token
+                    continue
                 grp = tlist.group_tokens(cls, from_idx, to_idx, extend=extend)
 
                 tidx_offset += to_idx - from_idx
